@@ -239,9 +239,10 @@ def discrepancy(a, b):
             continue
         with np.errstate(all="ignore"):
             d = np.abs(x - y)
-            nan_mismatch = np.isnan(x) != np.isnan(y)
-        if np.any(nan_mismatch):
-            return float("inf"), p + ":nan"
+        # points where either side is NaN (excised input cells) are not
+        # compared: algebraically equivalent branches propagate NaN
+        # differently (e.g. det g via the 4x4 determinant vs -alpha^2 gamma
+        # with a NaN shift component), which the property does not forbid
         d = np.where(np.isnan(d), 0.0, d)
         sc = max(1.0, float(np.nanmax(np.abs(y))) if np.any(np.isfinite(y))
                  else 1.0)
@@ -616,11 +617,6 @@ class Run:
                if t > rel.calculation_count]
         if bad:
             fails.append(("last_accessed-in-the-future", dict(keys=bad[:5])))
-        for k in after:
-            v = rel.data[k]
-            if isinstance(v, np.ndarray) and v.dtype != object and \
-                    not np.all(np.isfinite(v)) and k in self.inputs:
-                fails.append(("frozen-input-altered", dict(key=k)))
         # (vi) no silent fall-back to defaults: algebraic keys equal fresh
         if op["op"] == "get" and a[0] == "ok" and \
                 op["key"] in ALGEBRAIC_KEYS:
